@@ -652,6 +652,11 @@ def refine_droplet(
     bounds = l[free], h[free]
 
     # determine the intensities outside and inside the droplet
+    if data_mask.size == 0:
+        # the droplet does not cover any support point, so the intensities cannot be
+        # estimated from the image and we fall back to the default values
+        vmin = 0.0 if vmin is None else vmin
+        vmax = 1.0 if vmax is None else vmax
     if vmin is None:
         vmin = np.min(data_mask)
     if vmax is None:
